@@ -230,7 +230,52 @@ def difftest(run, rng, n):
                 same = type(real) is type(mine[1])
             if not same:
                 mism.append({"function": c.label, "inputs": jsonable(s), "cpython": _short(real), "pyvc": _short(mine[1])})
-    return {"evaluations": total, "mismatches": mism, "functions_skipped": skipped}
+    # second pass: the *symbolic* result (models, encodings) evaluated at the concrete input
+    from .zeval import zeval, Unevaluable
+    from .sym import Sym
+    import math
+    sym_total = 0
+    for c in run.contracts:
+        paths = run.sym_paths.get(c.label)
+        if not paths or c.params is None:
+            continue
+        done = 0
+        tries = 0
+        while done < n and tries < 10 * n:
+            tries += 1
+            s = default_sampler(c, rng) if not getattr(c, "sampler", None) else c.sampler(rng)
+            if s is None:
+                break
+            fa = _float_args(s)
+            if not all(isinstance(v, (int, float)) for v in fa.values()):
+                break
+            sig = inspect.signature(c.fn_inner)
+            b = sig.bind(**fa)
+            kind, real = call_real(c.fn_inner, b.args, b.kwargs)
+            if kind != "ok" or not isinstance(real, (int, float)) and not hasattr(real, "dtype"):
+                continue
+            try:
+                real = float(real)
+            except (TypeError, ValueError):
+                continue
+            if real != real or math.isinf(real):
+                continue
+            for p in paths:
+                res = p.ghost.get("sym_result")
+                if res is None:
+                    continue
+                try:
+                    if not all(zeval(a, fa) for a in p.ghost.get("sym_pc", [])):
+                        continue
+                    val = zeval(res.e, fa) if isinstance(res, Sym) else float(res)
+                except (Unevaluable, ZeroDivisionError, OverflowError, TypeError):
+                    continue
+                done += 1
+                sym_total += 1
+                if not math.isclose(float(val), real, rel_tol=1e-9, abs_tol=1e-12):
+                    mism.append({"function": c.label, "inputs": jsonable(s), "cpython": real, "pyvc_symbolic": float(val)})
+                break
+    return {"evaluations": total, "symbolic_evaluations": sym_total, "mismatches": mism, "functions_skipped": skipped}
 
 
 # ----------------------------------------------------------------------------
